@@ -325,15 +325,47 @@ var (
 	curDir   string
 	curSig   string
 	curClean bool
+	curBase  string // ancestor of the mount root whose tree (minus the mount) must never change
+	curOuter string
 )
+
+// outerSig summarises everything under curBase that is outside the mount root.
+func outerSig() string {
+	var sb strings.Builder
+	filepath.WalkDir(curBase, func(p string, d os.DirEntry, err error) error {
+		if p == curDir {
+			return filepath.SkipDir
+		}
+		rel, _ := filepath.Rel(curBase, p)
+		if err != nil {
+			fmt.Fprintf(&sb, "%s: %v\n", rel, err)
+			return nil
+		}
+		sz := int64(0)
+		if fi, err := d.Info(); err == nil && fi.Mode().IsRegular() {
+			sz = fi.Size()
+		}
+		fmt.Fprintf(&sb, "%s %v %d\n", rel, d.Type(), sz)
+		return nil
+	})
+	return sb.String()
+}
 
 // acquireDir returns the temp directory in its pristine state.
 func acquireDir() (string, error) {
 	if curDir == "" {
 		// per process: the workers of the native fuzz stage share one work directory
-		curDir = filepath.Join(evid.WorkDir(), fmt.Sprintf("tree-%d", os.Getpid()))
-		os.RemoveAll(curDir)
+		// The mount root lies three levels below curBase, with a sentinel file on every level, so
+		// that anything created or changed outside the mount (paths like "../..") shows in outerSig.
+		curBase = filepath.Join(evid.WorkDir(), fmt.Sprintf("tree-%d", os.Getpid()))
+		os.RemoveAll(curBase)
+		curDir = filepath.Join(curBase, "o1", "o2", "root")
+		os.MkdirAll(curDir, 0o700)
+		for _, d := range []string{curBase, filepath.Join(curBase, "o1"), filepath.Join(curBase, "o1", "o2")} {
+			os.WriteFile(filepath.Join(d, "sentinel"), []byte("outside the mount"), 0o600)
+		}
 		restore(curDir)
+		curOuter = outerSig()
 		curSig = treeSig(curDir)
 		curClean = true
 	}
@@ -953,6 +985,18 @@ func TestReplay(t *testing.T) {
 	if _, err := evid.LoadReplay(p, &nm); err == nil && nm.NoMem != nil {
 		if msg := runNoMem(nm.NoMem); msg != "" {
 			evid.Violation("replay", nm, "%s", msg)
+			t.Fatal(msg)
+		}
+		return
+	}
+	var sc SeqCase
+	if _, err := evid.LoadReplay(p, &sc); err == nil && len(sc.Calls) > 0 { // a sequence case (seq_test.go)
+		msg, _, _, err := checkSeq(&sc)
+		if err != nil {
+			t.Fatalf("harness: %v", err)
+		}
+		if msg != "" {
+			evid.Violation("replay", sc, "%s", msg)
 			t.Fatal(msg)
 		}
 		return
